@@ -105,9 +105,11 @@ CHECKS += [
              "a differing claim is rejected whatever the proof, and otherwise the decision is the inner batch verification. Correspondence: extracted "
              "Marlin LC model vs library on random combinations (zero/negative coefficients, repeated labels, constant terms, several combinations "
              "per point, shared point values) and on perturbed claims / coefficients / constants (decisions compared).",
-     "note": COMMON_NOTE + " Completeness of the combination opening itself reduces, by C06_combination_is_honest_commitment, to completeness of the "
-             "batch opening of honest commitments (C01); the grouping step of batch_open/batch_check is modelled and compared but its completeness "
-             "is not yet a theorem. The trait's default open_combinations/check_combinations is modelled once, generically in the scheme "
+     "note": COMMON_NOTE + " Completeness of the combination flows is a theorem end to end: C06_marlin_combinations_complete and "
+             "C06_sonic_combinations_complete (polynomials without degree bounds, distinct combination labels; built on the batch completeness "
+             "theorems C01_marlin_batch_complete / C01_sonic_batch_complete), C06_default_combinations_complete for ANY scheme on the default "
+             "path (one point per point label) with its linear-code instance; IPA and PST13: the combination is the honest commitment of the "
+             "stated combination (C06_ipa_*, C06_pst13_*). The trait's default open_combinations/check_combinations is modelled once, generically in the scheme "
              "(theorem C06_default_check_combinations_every_claim: every equation at every one of its points is checked against the transmitted "
              "evaluations and the default batch check runs on exactly those), and instantiated with Hyrax, whose combination flows are compared. "
              "Sonic's own open_combinations / check_combinations are modelled and compared (theorems C06_sonic_*: honest commitment triple of "
